@@ -166,7 +166,9 @@ class UCCGD(Ansatz):
         qubit_op = self._get_qubit_operator()
         qu_op_dict = qubit_op.terms
 
-        if set(qu_op_dict) != set(self.qu_op_dict):
+        # The order of the terms (not only the set) fixes the circuit: it can change with the parameter values,
+        # as intermediate cancellations move terms in the operator. Rebuild in that case too.
+        if list(qu_op_dict) != [term for term, _ in self.pauli_order]:
             self.build_circuit(var_params)
         else:
             for i, (term, _) in enumerate(self.pauli_order):
